@@ -153,6 +153,149 @@ for v := range OVER<<arr[0]>>OVER {
 for v := range OVER<<fs[0]()>>OVER {
 	tr.V(5, v)
 }`, "iter-in:struct-field", "iter-in:map", "iter-in:array", "iter-in:func-slice"),
+		mk("cons-labelled-range-continue-break-outer", `
+rows := §src(3, 0)
+outer:
+for r := range OVER<<rows>>OVER {
+	for c := range OVER<<§src(3, 100)>>OVER {
+		if c == 101 && r == 0 {
+			continue outer
+		}
+		if r == 2 {
+			break outer
+		}
+		tr.V(1, r*1000+c)
+	}
+}
+tr.V(2, rows.MoveNext())
+inner := 0
+for r := range OVER<<§src(2, 0)>>OVER {
+cols:
+	for c := range OVER<<§src(3, 200)>>OVER {
+		switch {
+		case c == 201:
+			continue cols
+		case c == 202 && r == 1:
+			break cols
+		}
+		inner += c
+	}
+	tr.V(3, inner+r)
+}`, "labels", "nested-range"),
+		Raw("cons-labelled-range-in-plain-closure-of-generator", consumerSrc+`
+func §gen() ITER[int] GEN[int]{
+	firstAbove := func(limit int) int {
+		found := -1
+	scan:
+		for a := range OVER<<§src(3, 10)>>OVER {
+			for b := range OVER<<§src(3, 0)>>OVER {
+				if a+b > limit {
+					found = a*100 + b
+					break scan
+				}
+				if b == 1 {
+					continue scan
+				}
+			}
+		}
+		return found
+	}
+	YIELD(firstAbove(11))
+	YIELD(firstAbove(100))
+	RETNIL
+}GEN
+`+StdEntry, "labels", "closure:labels"),
+		Raw("cons-generator-of-generators", consumerSrc+`
+func §chunks(n, size int) ITER[ITER[int]] GEN[ITER[int]]{
+	for lo := 0; lo < n; lo += size {
+		YIELD(§src(size, lo))
+	}
+	RETNIL
+}GEN
+
+type §table struct {
+	rows ITER[ITER[int]]
+	all  []ITER[ITER[int]]
+	byID map[string]ITER[[]ITER[int]]
+	mk   func() ITER[ITER[int]]
+}
+
+func §groups(n int) ITER[[]ITER[int]] GEN[[]ITER[int]]{
+	for i := 0; i < n; i++ {
+		YIELD([]ITER[int]{§src(1, i*10), §src(2, i*10+5)})
+	}
+	RETNIL
+}GEN
+
+func §heads(cs ITER[ITER[int]]) ITER[int] GEN[int]{
+	for c := range OVER<<cs>>OVER {
+		for v := range OVER<<c>>OVER {
+			YIELD(v)
+			break
+		}
+	}
+	RETNIL
+}GEN
+
+func §total(x any) int {
+	t := 0
+	switch x := x.(type) {
+	case ITER[int]:
+		for v := range OVER<<x>>OVER {
+			t += v
+		}
+	case ITER[ITER[int]]:
+		for c := range OVER<<x>>OVER {
+			for v := range OVER<<c>>OVER {
+				t += v * 10
+			}
+		}
+	case ITER[[]ITER[int]]:
+		for g := range OVER<<x>>OVER {
+			t += len(g) * 1000
+		}
+	default:
+		t = -1
+	}
+	return t
+}
+
+func §E() {
+	for v := range OVER<<§heads(§chunks(6, 2))>>OVER {
+		tr.V(1, v)
+	}
+	tb := §table{rows: §chunks(4, 2), mk: func() ITER[ITER[int]] { return §chunks(2, 1) }, byID: map[string]ITER[[]ITER[int]]{"g": §groups(2)}}
+	tb.all = append(tb.all, §chunks(2, 2), tb.mk())
+	for c := range OVER<<tb.rows>>OVER {
+		for v := range OVER<<c>>OVER {
+			tr.V(2, v)
+		}
+	}
+	for _, cs := range tb.all {
+		for c := range OVER<<cs>>OVER {
+			tr.V(3, c.MoveNext())
+			tr.V(4, c.Current())
+		}
+	}
+	for g := range OVER<<tb.byID["g"]>>OVER {
+		for _, it := range g {
+			for v := range OVER<<it>>OVER {
+				tr.V(9, v)
+			}
+		}
+	}
+	tr.V(5, §total(§src(3, 1)))
+	tr.V(6, §total(§chunks(4, 2)))
+	tr.V(10, §total(§groups(2)))
+	tr.V(7, §total(7))
+	var boxed any = §chunks(2, 1)
+	_, ok := boxed.(ITER[ITER[int]])
+	tr.V(8, ok)
+	var fn any = func() ITER[ITER[int]] { return nil }
+	_, ok = fn.(func() ITER[ITER[int]])
+	tr.V(11, ok)
+}
+`, "iter-of-iter", "type-switch"),
 		mk("cons-two-iterators-alternating", `
 a, b := §src(3, 10), §src(3, 20)
 for a.MoveNext() && b.MoveNext() {
